@@ -114,6 +114,7 @@ class Harness:
     shim_names = None          # None = all default shims
     params = {}
     stop_on_violation = True
+    prove_int_first = False    # try the exact linear-integer translation of an obligation before bit-blasting
 
     def inputs(self, mk):
         raise NotImplementedError
@@ -213,7 +214,7 @@ def run_harness(h, known=(), want_trace=True, deadline=None):
     shims.inject(mods, h.shim_names, h.shim_extra())
     tracer = FuncTracer()
     state = dict(first=True, stop=False)
-    prover = solve.Prover(timeout_ms=h.prove_timeout_ms)
+    prover = solve.Prover(timeout_ms=h.prove_timeout_ms, int_first=getattr(h, "prove_int_first", False))
 
     def body():
         if deadline and time.time() > deadline:
